@@ -62,6 +62,10 @@ func main() {
 		childStoreOp(os.Args[2])
 		return
 	}
+	if len(os.Args) == 3 && os.Args[1] == "storeop2" {
+		childStoreOp2(os.Args[2])
+		return
+	}
 	if len(os.Args) < 4 {
 		fmt.Fprintln(os.Stderr, "usage: hdrv <suite> <seed> <tier> [shard nshards] [workdir]")
 		os.Exit(2)
